@@ -1,6 +1,7 @@
 package main
 
 import (
+	"go/constant"
 	"go/ast"
 	"go/token"
 	"go/types"
@@ -1055,6 +1056,140 @@ func c03Keys(c *Ctx) {
 		})
 	}
 	c.Sites["C03-R9#key-formatting-calls"] = n
+	// operand order: a key may treat `l op r` and `r op l` as one computation only for operators that commute for
+	// every operand type. `+` is also string concatenation, `&&`/`||` short-circuit, so only * == != qualify.
+	allowed := map[int64]bool{}
+	if ap := c.Pkgs[modPath+"/pkg/ast"]; ap != nil {
+		for _, nm := range []string{"Mul", "Eq", "Ne"} {
+			if k, ok := ap.Types.Scope().Lookup(nm).(*types.Const); ok {
+				if v, ok := constant.Int64Val(k.Val()); ok {
+					allowed[v] = true
+				}
+			}
+		}
+	}
+	fromField := func(v ssa.Value, field string) bool {
+		return derivesFrom(v, func(x ssa.Value) bool {
+			switch y := x.(type) {
+			case *ssa.Field:
+				return y.X.Type().Underlying().(*types.Struct).Field(y.Field).Name() == field
+			case *ssa.FieldAddr:
+				return y.X.Type().Underlying().(*types.Pointer).Elem().Underlying().(*types.Struct).Field(y.Field).Name() == field
+			}
+			return false
+		})
+	}
+	isOpLoad := func(v ssa.Value) bool {
+		switch y := stripConv(v).(type) {
+		case *ssa.UnOp:
+			if fa, ok := y.X.(*ssa.FieldAddr); ok {
+				return fa.X.Type().Underlying().(*types.Pointer).Elem().Underlying().(*types.Struct).Field(fa.Field).Name() == "Op"
+			}
+		case *ssa.Field:
+			return y.X.Type().Underlying().(*types.Struct).Field(y.Field).Name() == "Op"
+		}
+		return false
+	}
+	// predicate P(op) answering true only for allowed operators
+	safePred := func(sf *ssa.Function) bool {
+		if sf == nil || len(sf.Params) != 1 || len(sf.Blocks) == 0 {
+			return false
+		}
+		ok := true
+		eachInstr(sf, func(b *ssa.BasicBlock, _ int, ins ssa.Instruction) {
+			r, isRet := ins.(*ssa.Return)
+			if !isRet || isConstBool(retVals(r)[0], false) {
+				return
+			}
+			// every way into this return established op == one of the allowed constants
+			q := &pathQuery{fn: sf, target: func(x ssa.Instruction) bool { return x == ins }, cutEdge: func(bb *ssa.BasicBlock, si int) bool {
+				iff := ifOf(bb)
+				if iff == nil {
+					return false
+				}
+				for _, f := range eqFacts(iff.Cond, si == 0) {
+					for _, pr := range [][2]ssa.Value{{f.x, f.y}, {f.y, f.x}} {
+						if stripConv(pr[0]) == ssa.Value(sf.Params[0]) {
+							if k, isK := constInt(pr[1]); isK && allowed[k] {
+								return true
+							}
+						}
+					}
+				}
+				return false
+			}}
+			if hit, _ := q.fromEntry(); hit != nil {
+				ok = false
+			}
+		})
+		return ok
+	}
+	nSwap := 0
+	eachInstr(ek, func(b *ssa.BasicBlock, _ int, ins ssa.Instruction) {
+		phi, ok := ins.(*ssa.Phi)
+		if !ok {
+			return
+		}
+		if bt, ok := phi.Type().Underlying().(*types.Basic); !ok || bt.Kind() != types.String {
+			return
+		}
+		l, r := false, false
+		for _, e := range phi.Edges {
+			if fromField(e, "Left") {
+				l = true
+			}
+			if fromField(e, "Right") {
+				r = true
+			}
+		}
+		if !(l && r) {
+			return
+		}
+		nSwap++
+		// the edges that bring the *other* operand in must be unreachable unless the operator is one of the allowed
+		cut := func(bb *ssa.BasicBlock, si int) bool {
+			iff := ifOf(bb)
+			if iff == nil {
+				return false
+			}
+			for _, f := range eqFacts(iff.Cond, si == 0) {
+				for _, pr := range [][2]ssa.Value{{f.x, f.y}, {f.y, f.x}} {
+					if isOpLoad(pr[0]) {
+						if k, isK := constInt(pr[1]); isK && allowed[k] {
+							return true
+						}
+					}
+				}
+			}
+			cond, truth := iff.Cond, si == 0
+			for {
+				u, isNot := cond.(*ssa.UnOp)
+				if !isNot || u.Op != token.NOT {
+					break
+				}
+				cond, truth = u.X, !truth
+			}
+			if call, isCall := cond.(*ssa.Call); isCall && truth && len(call.Call.Args) == 1 && isOpLoad(call.Call.Args[0]) && safePred(call.Call.StaticCallee()) {
+				return true
+			}
+			return false
+		}
+		bad := false
+		// the block in which operands are exchanged: a predecessor edge of this phi reached only via the swap branch;
+		// conservatively require every predecessor that is not the straight-line one to be guarded
+		for i := range phi.Edges {
+			pred := phi.Block().Preds[i]
+			if len(pred.Preds) == 0 || pred.Dominates(phi.Block()) {
+				continue // the fall-through (unswapped) way in
+			}
+			q := &pathQuery{fn: ek, cutEdge: cut, target: func(x ssa.Instruction) bool { return x.Block() == pred }}
+			if hit, _ := q.fromEntry(); hit != nil {
+				bad = true
+			}
+		}
+		c.ob("C03-R9", fnKey(ek)+"#operand-order-normalised-only-for-commuting-operators-"+itoa(nSwap), phi.Pos(), !bad, "the expression key exchanges the two operands (so that `l op r` and `r op l` share a key) for operators that do not commute for every operand type: `+` concatenates strings, so `a + b` is reused for `b + a` and \"AdaLovelace\" is returned where \"LovelaceAda\" is due")
+	})
+	c.Sites["C03-R9#operand-order-normalisations"] = nSwap
 }
 
 func nodeText(c *Ctx, n ast.Node) string {
